@@ -271,7 +271,7 @@ def main(tier, seed):
         res = run_campaign(wd, max(10, int(fuzz_s * share)), fuzz_w, seed, dw)
         st = res["stats"]
         ev.extra["fuzz_" + name] = st
-        ev.evaluations += st.get("execs", 0)
+        ev.extra["fuzz_execs"] = ev.extra.get("fuzz_execs", 0) + st.get("execs", 0)     # (time-boxed: reported apart from the deterministic count)
         feats += st.get("ft", 0)
         if "execs" not in st:
             ev.violations.append({"property": PID, "kind": "fuzz", "reason": "libFuzzer produced no statistics: " + res["log_tail"],
